@@ -895,8 +895,14 @@ func convertTypes(d *doc, r *schema.Realm) error {
 	}
 	byName := make(map[string]*schema.EnumType)
 	for _, e := range d.Enums {
-		if byName[e.Name] != nil {
-			return fmt.Errorf("duplicate enum %q", e.Name)
+		// Enums that share their name with an enum of another schema are
+		// qualified with their schema name, and are referenced this way.
+		name := e.Name
+		if e.Qualifier != "" {
+			name = e.Qualifier + "." + e.Name
+		}
+		if byName[name] != nil {
+			return fmt.Errorf("duplicate enum %q", name)
 		}
 		ns, err := specutil.SchemaName(e.Schema)
 		if err != nil {
@@ -908,7 +914,7 @@ func convertTypes(d *doc, r *schema.Realm) error {
 		}
 		e1 := &schema.EnumType{T: e.Name, Schema: es, Values: e.Values}
 		es.AddObjects(e1)
-		byName[e.Name] = e1
+		byName[name] = e1
 	}
 	for _, t := range d.Tables {
 		for _, c := range t.Columns {
